@@ -15,14 +15,17 @@ RULE = ("case = scope forest of <=5 scopes (sync/async blocks, sync/async/no com
         "(a child is constructed while its parent's body runs or from a task that inherited the parent's context; parents may "
         "be left, and may have completed, before the child is constructed or left); quick: corpus + every linearisation of every "
         "forest shape x task placement with <=3 scopes + 6 random linearisations per shape with 4 + ~6500 sampled event sequences "
-        "(a quarter from the degenerate stream: held scope objects entered late or never); thorough: every linearisation with <=4 "
+        "(a quarter from the degenerate stream: held scope objects entered late or never; ~1500 from the fault stream: tasks "
+        "cancelled from outside while suspended in a body or blocked in an exit that waits for ctx.spawn members, async scopes "
+        "with a disposable whose cleanup raises and whose caller catches the error and goes on); thorough: every linearisation with <=4 "
         "scopes, 80 random linearisations for each of the 1944 shape x placement combinations with 5 scopes, 80000 sampled "
         "sequences; non-trivial = >=2 scopes with "
         "callbacks, >=1 nesting edge, and some scope left before a scope nested in it was left or constructed; distinct = by case text")
 TRUSTED = ["asyncio Future done-callbacks / run_coroutine_threadsafe deliver by quiescence (harness/vloop.py)",
            "asyncio.TaskGroup join semantics as modelled in Haiway/Model/ScopeRun.lean (exit waits for ctx.spawn members)",
            "harness/metrics_common.py (event language, spec replay, runner) + harness/comp_completion.py monitor"]
-ASSUMPTIONS = ["normal exits and body exceptions only: no disposables, no cancellation, completion callbacks do not raise",
+ASSUMPTIONS = ["exits: normal, body exception, cancellation of the task from outside at a quiescent point, a disposable whose cleanup "
+               "raises an Exception (not when the exit reason is a cancellation); completion callbacks do not raise",
                "one event loop; callbacks observed at loop quiescence after every event (their relative order is not compared)",
                "asserts enabled (python without -O)"]
 
@@ -41,10 +44,9 @@ def run_real(case: str) -> str:
     run = mc.run_case(case)
     if run is None:
         return "invalid"
-    if run.desync:
-        return run.desync
     out = []
-    for k in range(len(run.evs) + 1):
+    last = int(run.desync.split("@")[1]) if run.desync else len(run.evs) + 1
+    for k in range(last):
         for n in run.notes.get(k, []):
             out.append(f"{k}!{n}")
         for sid, obs in sorted(run.fired.get(k, []), key=lambda x: x[0]):
@@ -58,6 +60,8 @@ def run_real(case: str) -> str:
             out.append(f"N{sc.sid}")
         else:
             out.append(f"F{sc.sid}/{run.count[sc.sid]}/{_b(bool(m.is_completed))}/{_num(m.time)}")
+    if run.desync:
+        out.append(f"D{last}")       # a task was not where the program says it is: observations end here
     return " ".join(out)
 
 
@@ -75,9 +79,14 @@ def monitor(case: str, out: str) -> list[str]:
     spec = mc.replay(p[1])
     if not spec.ok:
         return []
-    if out.startswith("HANG") or out.startswith("desync"):
+    if out.startswith("HANG"):
         return ["completion.no-observation:" + out[:24]]
     fails = set()
+    desync = None
+    for tok in out.split():
+        if tok.startswith("D") and tok[1:].isdigit():
+            desync = int(tok[1:])
+            fails.add("completion.no-observation:desync")
     fired_at: dict[int, list[int]] = {}
     cb_obs: dict[int, tuple[str, str]] = {}
     final: dict[int, tuple[int, str, str]] = {}
@@ -113,7 +122,7 @@ def monitor(case: str, out: str) -> list[str]:
                 if d.ev_entered is not None and d.ev_entered <= k and (d.ev_left is None or d.ev_left > k):
                     fails.add("completion.fired-before-subtree-left")
         # always eventually, once they have been left (checked at the end of the run)
-        if not ks and sc.ev_left is not None:
+        if not ks and sc.ev_left is not None and desync is None:
             open_desc = [d for d in desc if d.ev_entered is not None and d.ev_left is None]
             never = [d for d in desc if d.ev_entered is None]
             if open_desc:
@@ -158,6 +167,15 @@ def corpus():
         "0:o:s:s 0:X 0:o:s:s 0:x 0:e",
         # held scope object entered later, outside its lexical parent
         "0:o:a:s 0:m:s:s 0:x 0:n +2 0:x 0:e",
+        # fault paths: the scope's task is cancelled while its body is suspended / while its exit waits for a member
+        "0:o:a:s 0:c 1:o:a:s 1:k 0:x 0:e",
+        "0:o:a:s 0:c 1:o:a:s 1:s 2:o:s:a 1:x +1 1:k +1 0:x 0:e",
+        "0:o:a:s 0:s 1:o:a:s 1:o:s:a 1:k +2 0:x 0:e",
+        "0:o:a:s 0:s 1:o:d:s 1:o:a:a 1:s 2:o:s:s 0:x 0:k",
+        # a disposable whose cleanup raises: the caller catches the error and goes on
+        "0:o:a:s 0:o:d:s 0:x 0:o:s:a 0:x 0:x 0:e",
+        "0:o:a:s 0:o:d:a 0:s 1:o:s:s 0:X +1 0:x 0:e",
+        "0:o:d:s 0:c 1:o:d:a 0:x 1:x 1:e 0:e",
         # held scope object never entered (known finding)
         "0:o:a:s 0:m:s:s 0:x 0:e",
         "0:o:a:s 0:o:s:s 0:m:a:s 0:x 0:x 0:e",
@@ -169,8 +187,8 @@ KINDS = mc.KINDS
 CBS = mc.CBS
 
 
-def sample(rng, max_scopes: int, degenerate: bool) -> str:
-    return mc.sample_events(rng, max_scopes, degenerate)
+def sample(rng, max_scopes: int, degenerate: bool, faults: float = 0.0) -> str:
+    return mc.sample_events(rng, max_scopes, degenerate, faults=faults)
 
 
 def shapes(n: int):
@@ -292,11 +310,15 @@ def generate(rng, tier):
             c = sample(rng, rng.randint(2, 4), True)
             if c:
                 yield c
+        for _ in range(1500):
+            c = sample(rng, rng.randint(2, 5), False, faults=1.0)
+            if c:
+                yield c
     else:
         yield from enumerate_shapes(4)
         yield from sample_shapes(rng, 5, 80)
         for _ in range(16 * 5000):
-            c = sample(rng, rng.randint(2, 5), rng.random() < 0.25)
+            c = sample(rng, rng.randint(2, 5), rng.random() < 0.25, faults=1.0 if rng.random() < 0.25 else 0.0)
             if c:
                 yield c
 
@@ -342,9 +364,11 @@ def classify(case: str, out: str):
             yield "shape:entered-late"
     if any(tk.member_of is not None for tk in spec.tasks):
         yield "shape:group-member"
+    if any(s.disp for s in spec.scopes):
+        yield "shape:failing-cleanup"
 
 
-ALPHA = ["o", "x", "X", "s", "c", "e", "m", "n", "+"]
+ALPHA = ["o", "x", "X", "s", "c", "e", "m", "n", "+", "k"]
 
 
 def mutate(rng, case: str) -> str:
@@ -355,7 +379,7 @@ def mutate(rng, case: str) -> str:
         t = rng.randrange(ntasks)
         op = rng.choice(ALPHA)
         if op in ("o", "m"):
-            new = f"{t}:{op}:{rng.choice(KINDS)}:{rng.choice(CBS)}"
+            new = f"{t}:{op}:{rng.choice(KINDS + ['d'])}:{rng.choice(CBS)}"
         elif op == "+":
             new = f"+{rng.randint(1, 3)}"
         else:
